@@ -530,7 +530,7 @@ def outcome(spec, res, ix, fault):
                 why = None
                 break
     garbage_in = spec['cls'] != 'wellformed' or bool(readfault)     # a read fault truncates mid-line
-    if why and (any(n == b'' for n, _ in rows) or (fmt != 'fasta' and b'\n ' in text and garbage_in)):
+    if why and (any(n == b'' for n, _ in rows) or ((fmt != 'fasta' or spec['extra_args']) and b'\n ' in text and garbage_in)):
         # garbage input made kalign read a sequence without a name; a nameless row cannot be told from
         # padding in msf/clu, so the content oracle is not applied (memory safety etc. still are)
         why = None
